@@ -526,7 +526,7 @@ func (c *Ctx) c16Accesses() {
 			}
 			paths = ps
 		}
-		isCtor := constructors[name]
+		isCtor := constructors[name] || c.constructionOnly()(fn)
 		report := func(rule, cons, kind string, ev *pw.Event, msg string, p *pw.Path) {
 			viol[cons] = true
 			r.Bad(rule, cons, kind+"@"+name, c.Pos(ev.Pos), msg+" (in "+name+")", append(shortTrace(p), p.Summary(c.Pkg.Fset)...))
@@ -604,6 +604,10 @@ func (c *Ctx) c16Accesses() {
 						}
 					case clAtomic:
 						if ev.Note == "addr" {
+							continue
+						}
+						// initialising the field of a freshly built entry that nobody else can see yet is construction
+						if write && ev.Recv != nil && (ev.Recv.Kind == pw.KAlloc || ev.Recv.Kind == pw.KZero) && !published[ev.Recv] {
 							continue
 						}
 						report("R16.1", key, "non-atomic-access", ev, "ATOMIC field "+key+" is accessed without sync/atomic", p)
